@@ -314,6 +314,15 @@ def radix50_literal(ctx):
         )
         string = string[:3]
 
+    if not string.isascii():
+        # The case-insensitive match also lets in a few non-ASCII letters
+        # whose other case is an ASCII letter, e.g. the Kelvin sign
+        reports.error(
+            "invalid-string",
+            (ctx_start, ctx, "Only radix-50 characters (letters, digits, '$', '.' and '%') may follow ^R.")
+        )
+        string = "".join(char for char in string if char.isascii())
+
     string = string.upper()
 
     return types.Number(ctx_start, ctx, f"^R{string}", radix50.pack_to_int(string), is_valid_label=False)
